@@ -419,6 +419,48 @@ def _term_has_call(t, names):
     return any(_term_has_call(x, names) for x in t if isinstance(x, tuple))
 
 
+def _valid_slice(b, term, helpers):
+    """Is this term the valid prefix of the padded buffer?  (a) the slice the read helper returned: a chain of views and
+    `.0` / payload projections ending in the helper call, with no indexing of our own; (b) `buf[..n]` / `buf[0..n]` where n
+    is the running count: a local handed to the read helper by `&mut` (the helper keeps it up to date) or a count field of
+    the connection — not the size of the last read."""
+    from .. import terms
+    t = terms.strip_views(terms.simplify(term))
+    # (a)
+    x = t
+    while isinstance(x, tuple) and x and x[0] in ("field", "call"):
+        if x[0] == "field":
+            x = terms.strip_views(x[1])
+            continue
+        if x[1] in helpers:
+            return True
+        if x[1] and x[1].endswith("::branch") and "Try" in x[1] and x[2]:
+            x = terms.strip_views(x[2][0])
+            continue
+        break
+    # (b)
+    if isinstance(t, tuple) and t and t[0] == "call" and t[1] and t[1].rsplit("::", 1)[-1] == "index" and len(t[2]) == 2:
+        rng = t[2][1]
+        if isinstance(rng, tuple) and rng[0] == "agg" and rng[1].startswith("core::ops::range::Range") and rng[3]:
+            end = rng[3][-1]
+            if rng[1].endswith("::Range") and rng[3][0] != ("const", 0):
+                return False
+            # the running count: a local whose address is passed to the helper, or a field of the connection
+            if isinstance(end, tuple) and end[0] == "field" and end[3] and "total" in str(end[3]):
+                return True
+            if isinstance(end, tuple) and end[0] == "free":
+                l = end[1]
+                for bb, tcall in b.calls():
+                    if any(n in helpers for n in callee_names(tcall)):
+                        for a in tcall["args"]:
+                            la = op_local(a)
+                            for bb2, i2, s2 in b.stmts():
+                                if s2["k"] == "assign" and s2["place"]["l"] == la and s2["rv"]["k"] == "ref" and s2["rv"]["mut"] \
+                                        and s2["rv"]["place"]["l"] == l and not s2["rv"]["place"]["p"]:
+                                    return True
+    return False
+
+
 def valid_prefix_rule(rep, prog, cfg, rule="C02.valid-prefix", which=("blocking/connect", "blocking/receive", "async/connect", "async/receive")):
     """A flavour that reads through a slice-based read (`Read::read(&mut buf[n..])`) keeps a zero-padded buffer whose
     length is not the number of bytes received.  There the parser may only be offered the valid prefix: the slice the
@@ -457,7 +499,7 @@ def valid_prefix_rule(rep, prog, cfg, rule="C02.valid-prefix", which=("blocking/
             arg = t["args"][1] if is_builder else t["args"][0]
             al = op_local(arg)
             term = terms.term_of_local(b, al, depth=12) if al is not None else None
-            from_helper = term is not None and _term_has_call(term, helpers)
+            from_helper = term is not None and _valid_slice(b, term, helpers)
             split_ok = False
             if not from_helper and al is not None:
                 f = ref_field_of_local(b, al)
